@@ -1,0 +1,20 @@
+//go:build verif
+// +build verif
+
+package hc
+
+// Accessors used by the verification harness in /verif (build tag "verif").
+// They only read state that is otherwise private to the transport.
+
+// VerifPort returns the TCP port the started transport listens on ("" before Start).
+func (t *ipTransport) VerifPort() string {
+	if t.server == nil {
+		return ""
+	}
+	return t.server.Port()
+}
+
+// VerifTxtRecords returns the mDNS TXT records the transport currently advertises.
+func (t *ipTransport) VerifTxtRecords() map[string]string {
+	return t.config.txtRecords()
+}
